@@ -61,6 +61,59 @@ PROPS = {
  },
 }
 
+
+REAL_LIVE = ["pkg/drc (Main)", "pkg/doapprove (Main)", "pkg/device", "pkg/cisco", "pkg/asa", "pkg/ios", "pkg/console incl. goexpect matching loop and timers", "pkg/status", "pkg/errlog", "pkg/program", "pkg/codefiles", "file system (basedir on tmpfs)"]
+STUB_LIVE = ["pty + ssh process: io.Pipe pair behind expect.SpawnGeneric (hook H1)", "device: executable ASA/IOS node with dialogue front end, reload timer, fault injector (/verif/sim/cisco)", "clock: testing/synctest fake clock"]
+ASSUME_LIVE = ASSUME_NODE + ["dialogue front end reproduces prompts, echo and password handling of real devices (no echo at password prompts, echo at command prompts)"]
+
+PROPS.update({
+ "C06": {
+  "level": "exploration", "design_ref": "DESIGN.md §5 P-C06",
+  "technique": "deterministic simulation of full approve sessions (real drc.Main / doapprove.Main in a synctest bubble against the device node); configuration product hostname x marker x front end enumerated per sampled input; oracle on the device's command transcript",
+  "level_text": "For every sampled (A,B) with pending changes the product {drc, do-approve} x 4 hostname variants x {marker present, absent, partial, not configured} is run completely; a wrong or unmanaged device must receive no change/guard/save command and the run must fail with a diagnostic; marker not configured must behave like marker present. ASA and IOS in this tree (Linux / PAN-OS axes need their nodes).",
+  "level_note": "Trusts the node's command classification (by protocol position and effect on the model state).",
+  "rule": "case = cisco pair x 32 configurations; evaluations = sessions; non-trivial = reference run has a non-empty script; distinct = hash of texts",
+  "quick": B(400, 40), "thorough": B(40000, 900),
+  "real": REAL_LIVE, "stubs": STUB_LIVE, "assumptions": ASSUME_LIVE, "min_nontrivial": 20,
+ },
+ "C09": {
+  "level": "fault_enumeration", "design_ref": "DESIGN.md §5 P-C09",
+  "technique": "deterministic simulation with fault injection: fault-free session fixes the dialogue positions, then every fault kind (stall beyond timeout, close, close after echo, error text, garbage, garbled echo, failed save, auth reject; plus legal warnings/latency) is injected at every position; oracles over device transcript, exit status, status file, history, run log, bounded liveness in simulated time",
+  "level_text": "Per sampled scenario all dialogue positions x applicable fault kinds are enumerated (thorough: all; quick: a rotating third); after the fault no change or save command may reach the device, exit != 0, FAILED/DIFF, END: FAILED, tool ends within 5*timeout+10 s simulated; conversely OK only if every command was accepted and the save confirmed. Timeouts of 10-120 s cost microseconds (fake clock).",
+  "level_note": "ASA and IOS sessions in this tree; HTTP devices when their nodes exist. Error text at setup commands whose reply the tool does not inspect by design is not judged.",
+  "rule": "evaluations = faulted sessions; non-trivial = base scenario with >=1 change command; distinct = hash(device, target, front, mode)",
+  "quick": B(2000, 50), "thorough": B(100000, 1200),
+  "real": REAL_LIVE, "stubs": STUB_LIVE, "assumptions": ASSUME_LIVE, "min_nontrivial": 20,
+ },
+ "C11": {
+  "level": "fault_enumeration", "design_ref": "DESIGN.md §5 P-C11",
+  "technique": "deterministic simulation with fault injection: compare sessions (drc -C, do-approve compare) under every interlock outcome and every fault kind at every dialogue position; transcript oracle + state hash of running/startup configuration before and after",
+  "level_text": "Compare runs with non-empty differences, missing marker, unconfigured marker, wrong hostname, and all C09 fault kinds at all positions: the device must receive no change, guard or save command (only ASA 'terminal width' inside configure terminal) and its running and startup configuration must be byte-identical afterwards.",
+  "level_note": "ASA and IOS in this tree.",
+  "rule": "evaluations = compare sessions; non-trivial = base compare reports differences; distinct = hash(device, target, front, interlock)",
+  "quick": B(2000, 40), "thorough": B(100000, 900),
+  "real": REAL_LIVE, "stubs": STUB_LIVE, "assumptions": ASSUME_LIVE, "min_nontrivial": 20,
+ },
+ "C15": {
+  "level": "fault_enumeration", "design_ref": "DESIGN.md §5 P-C15",
+  "technique": "deterministic simulation: IOS node with simulated reload timer; for every change command of the guarded region a reload banner (2:00 or timer-driven 1:00) is placed before / inside (offsets) / after its echo, with or without extra prompt; order oracles on the transcript + outcome invariance against the banner-free run",
+  "level_text": "Per scenario every change-command position x banner form x kind (thorough: every echo offset) is enumerated. The 1:00 banner is produced by the node's own timer (the node idles until T-60 s on the fake clock). Oracles: changes only while a reload is armed, write memory only after cancel and only if all accepted, nothing pending after OK, re-arm after 1:00, same exit/running/startup/script as without banner.",
+  "level_note": "Only banner placements the suite documents as produced by devices (inside the command echo, with extra prompt only at its ends).",
+  "rule": "evaluations = bannered sessions; non-trivial = scenario with non-empty script; distinct = hash of texts",
+  "quick": B(1500, 50), "thorough": B(60000, 1200),
+  "real": REAL_LIVE, "stubs": STUB_LIVE, "assumptions": ASSUME_LIVE, "min_nontrivial": 20,
+ },
+ "C17": {
+  "level": "fault_enumeration", "design_ref": "DESIGN.md §5 P-C17",
+  "technique": "deterministic simulation with fault injection: fresh random secret per run (alphabet needing URL/XML escaping), all fault kinds at all dialogue positions incl. rejected enable; byte scan of every file under basedir, stdout and stderr for the secret in plain, query-escaped, path-escaped and XML-escaped form",
+  "level_text": "Every sink is scanned after every run (success and each fault kind x position, login positions always). The node never echoes input given at a password prompt and echoes input typed at a command prompt, like real devices.",
+  "level_note": "ASA and IOS (login password) in this tree; API key / session token sinks need the HTTP nodes.",
+  "rule": "evaluations = sessions; non-trivial = every case (fresh secret); distinct = hash(secret, kind, front)",
+  "quick": B(1500, 40), "thorough": B(60000, 900),
+  "real": REAL_LIVE, "stubs": STUB_LIVE, "assumptions": ASSUME_LIVE, "min_nontrivial": 20,
+ },
+})
+
 # Properties without a registered check: id -> reason.
 NOT_CLAIMED = {
 }
